@@ -1,5 +1,6 @@
 """C13 - sampled variable sets are complete and dependent values are consistent."""
 import itertools
+import numpy as np
 import math
 
 from symx import Harness, pname, sand, sor, simplies, siff, near_le, near_eq, snot, is_sym
@@ -16,7 +17,7 @@ ASSUMPTIONS = ['dependent formulas are linear combinations generated from the ed
                'independent samples arbitrary reals in [1,2]']
 BOUNDS = {'quick': 'all DAGs on <= 4 variables (64 edge sets x 24 declaration orders), all directed graphs on 3 variables (cyclic included), chains of length 5, '
                    '2 samples; numbered indices incl. negative and multi-digit', 'thorough': 'all DAGs on 5 variables x 8 declaration orders'}
-OUTSIDE = ['non-linear dependent formulas (value equality is by term)', 'vector-valued dependents', 'graphs beyond the bound']
+OUTSIDE = ['non-linear dependent formulas (value equality is by term)', 'array-valued dependents beyond the three listed forms', 'graphs beyond the bound']
 DEADLINE = {'quick': 150, 'thorough': 1500}
 FUNCS = ['sampling.gen_symbols_samples', 'sampling.DependentSampler.__init__/compute_sample', 'sampling.is_subset', 'MathMixin.gen_var_and_func_samples',
          'MathMixin.generate_variable_list', 'MathMixin.get_used_vars', 'math_helpers.numbered_vars_regexp', 'sampling.construct_constants', 'expressions.evaluator']
@@ -185,6 +186,41 @@ def h_numbered_base_also_variable(E):
     return 'ok'
 
 
+def h_dependent_array(E, kind):
+    """dependent variables whose value is a vector or a matrix (symbolic entries): every sample holds them, equal entry by entry to their formula on
+    the other values of the same sample, in any declaration order"""
+    from mitxgraders import MatrixGrader, DependentSampler
+    from mitxgraders.sampling import VariableSamplingSet
+    from mitxgraders.helpers.calc.math_array import MathArray
+    import voluptuous
+    cnt = [0]
+
+    class VecSampler(VariableSamplingSet):
+        schema_config = voluptuous.Schema({})
+
+        def gen_sample(self):
+            cnt[0] += 1
+            a = np.empty((2,), dtype=object)
+            for i in range(2):
+                a[i] = E.real('v%d_%d' % (cnt[0], i), 1, 2)
+            return MathArray(a.astype(float) if E.mode == 'conc' else a)
+    SX = make_sym_sampler(E, 'x', 1, 2)
+    formula = {'scaled-vector': 'x*v', 'matrix-literal': '[[x,0],[0,0-x]]', 'sum-of-vectors': 'v+v+[x,1]'}[kind]
+    order = E.choice('declaration_order', [['w', 'x', 'v'], ['x', 'v', 'w'], ['v', 'w', 'x']])
+    g = MatrixGrader(answers='w', variables=order, sample_from={'x': SX(), 'v': VecSampler(), 'w': DependentSampler(formula=formula)}, samples=2, max_array_dim=2)
+    var_samples, _ = g.gen_var_and_func_samples('w', {}, ['w'])
+    for sample in var_samples:
+        x, v, w = sample['x'], sample['v'], sample['w']
+        if kind == 'scaled-vector':
+            ok = sand(w.shape == (2,), *[near_eq(w[i], x * v[i]) for i in range(2)])
+        elif kind == 'matrix-literal':
+            ok = sand(w.shape == (2, 2), near_eq(w[0, 0], x), near_eq(w[1, 1], -x), near_eq(w[0, 1], 0), near_eq(w[1, 0], 0))
+        else:
+            ok = sand(w.shape == (2,), near_eq(w[0], 2 * v[0] + x), near_eq(w[1], 2 * v[1] + 1))
+        E.check('dependent-consistent', ok)
+    return 'ok'
+
+
 def h_dependent_suffix(E):
     """dependent formulas are evaluated with the grader's OWN suffix table: with metric_suffixes on, `2k*x` is a valid dependency and equals 2000 x"""
     from mitxgraders import FormulaGrader, DependentSampler
@@ -267,6 +303,9 @@ def harnesses(tier):
         add(h_numbered, 'numbered', dict(case=case), 'numbered instances with negative / multi-digit indices')
     for hk in ('one', 'two', 'prefixes', 'special'):
         add(h_numbered_language, 'numbered_language', dict(heads=hk), 'regex language over all printable-ASCII strings, no length bound', validate=False)
+    for kind in ('scaled-vector', 'matrix-literal', 'sum-of-vectors'):
+        add(h_dependent_array, 'dependent_array', dict(kind=kind), 'symbolic entries, 3 declaration orders (array literals with symbolic entries are followed by the concrete replay only)',
+            expect_inconclusive=(kind != 'scaled-vector'))
     add(h_dependent_suffix, 'dependent_suffix', {}, 'symbolic draws, metric and percent suffixes inside dependent formulas')
     add(h_numbered_base_also_variable, 'numbered_base_also_variable', {}, 'symbolic draws')
     for i in range(len(BAD_NUMBERED)):
